@@ -1,11 +1,15 @@
 (* Property C14 — the bounding rectangle of a radius search covers the whole disc.
-   PARTIAL: over the reals the latitude band [lat - r, lat + r] of RectFromCenter
-   is proved to contain every location within angular distance r; the
-   tangent-longitude bound, the pole / antimeridian widening, the world bounds
-   and NaN-freedom are checked on every run by flags over generated centres and
-   radii (48 probes per case) and by certified interval samples. *)
-From Coq Require Import Reals.
-From GJ Require Import Sphere.
+   Over the reals, for a disc that reaches neither a pole nor the antimeridian:
+   the latitude band [lat - r, lat + r] and the longitude band lon +- asin (sin r /
+   cos lat) of RectFromCenter are proved to contain every location within angular
+   distance r, and the angle the code computes (atan2 form, since the repair
+   7efb257) is proved to be that tangent longitude.  PARTIAL: the pole /
+   antimeridian widening, the world bounds, NaN-freedom and float64 rounding are
+   checked on every run by flags over generated centres and radii (48 probes per
+   case) and by certified interval samples. *)
+From Coq Require Import Reals Lra.
+From Interval Require Import Tactic.
+From GJ Require Import Sphere SphereRect.
 Open Scope R_scope.
 
 Theorem C14_latitude_band_covers_disc : forall lat0 lon0 lat lon r,
@@ -20,4 +24,21 @@ Theorem C14_disc_in_metres : forall clat clon meters plat plon,
   (hav plat plon clat clon <= dist_to_hav meters <-> distance_to plat plon clat clon <= meters).
 Proof. exact circle_contains_point_spec. Qed.
 
+Theorem C14_longitude_band_covers_disc : forall lat0 lon0 lat lon r,
+  lat_ok lat0 -> lat_ok lat -> 0 <= r -> Rabs (rad lat0) + r < PI / 2 ->
+  - PI <= rad lon - rad lon0 <= PI ->
+  hav lat0 lon0 lat lon <= sin (r / 2) * sin (r / 2) ->
+  Rabs (rad lon - rad lon0) <= asin (sin r / cos (rad lat0)).
+Proof. exact disc_longitude_band. Qed.
+
+Theorem C14_code_angle_is_tangent_longitude : forall lat r,
+  0 <= r -> Rabs lat + r < PI / 2 ->
+  atan (sin r / sqrt (cos (lat + r) * cos (lat - r))) = asin (sin r / cos lat).
+Proof. exact rect_lon_is_tangent_longitude. Qed.
+
+(* the hypotheses are satisfiable: centre (45 N, 10 E), radius 0.1 rad, a location 0.05 rad to the east *)
+Example C14_hypotheses_hold_somewhere : lat_ok 45 /\ 0 <= 1 / 10 /\ Rabs (rad 45) + 1 / 10 < PI / 2.
+Proof. unfold lat_ok, rad. split; [lra|]. split; [lra|]. interval. Qed.
+
 Print Assumptions C14_latitude_band_covers_disc.
+Print Assumptions C14_longitude_band_covers_disc.
